@@ -41,7 +41,8 @@ def cnf_text(shape, rng, sep='\n    '):
     return sep.join(' or '.join(rng.choice(LEAF[x]) for x in line) for line in shape)
 
 
-SITES = ['rule', 'when_block', 'guard_block', 'type_block', 'filter', 'rule_when']
+SITES = ['rule', 'when_block', 'guard_block', 'type_block', 'filter', 'rule_when',
+         'param_call', 'param_call_msg', 'named_ref', 'named_ref_not', 'some_block']
 
 
 def site_rule(site, name, body):
@@ -57,6 +58,16 @@ def site_rule(site, name, body):
         return 'rule %s {\n  some items[ %s ] exists\n}' % (name, body)
     if site == 'rule_when':
         return 'rule %s when %s {\n  a exists\n}' % (name, body)
+    if site == 'param_call':
+        return 'rule callee_%s(p) {\n    %s\n}\nrule %s {\n  callee_%s(a)\n}' % (name, body, name, name)
+    if site == 'param_call_msg':
+        return 'rule callee_%s(p) {\n    %s\n}\nrule %s {\n  callee_%s(a) <<custom message>>\n}' % (name, body, name, name)
+    if site == 'named_ref':
+        return 'rule %s {\n  dep_%s\n}\nrule dep_%s {\n    %s\n}' % (name, name, name, body)
+    if site == 'named_ref_not':
+        return 'rule dep_%s {\n    %s\n}\nrule %s {\n  not dep_%s\n}' % (name, body, name, name)
+    if site == 'some_block':
+        return 'rule %s {\n  some items[*] {\n    %s\n  }\n}' % (name, body)
     raise ValueError(site)
 
 
@@ -92,11 +103,26 @@ def observed(site, rule_rec):
     if site == 'rule_when':
         w = find(rule_rec, 'RuleCondition')
         return w[1], rule_st
+    if site in ('param_call', 'param_call_msg'):
+        for ch in ct.L(rule_rec[3]):
+            w = find(ch, 'RuleCheck')
+            if w is not None:
+                return w[2], rule_st
+        return None, rule_st
+    if site in ('named_ref', 'named_ref_not'):
+        return None, rule_st
+    if site == 'some_block':
+        w = find(rule_rec, 'BlockGuardCheck')
+        return w[2], rule_st
 
 
 def expected_rule(site, st):
-    if site in ('rule', 'when_block', 'guard_block', 'type_block'):
+    if site in ('rule', 'when_block', 'guard_block', 'type_block', 'param_call', 'param_call_msg', 'some_block'):
         return st
+    if site == 'named_ref':
+        return 'PASS' if st == 'PASS' else 'FAIL'
+    if site == 'named_ref_not':
+        return 'FAIL' if st == 'PASS' else 'PASS'
     if site == 'filter':
         return 'PASS' if st == 'PASS' else 'SKIP'
     if site == 'rule_when':
@@ -132,14 +158,19 @@ def exhaustive_cnf(ctx, max_lines, max_alts, per_file=400):
         if res[0] != 'Ok':
             ctx.failing('CNF shape file raised an error at site %s' % site, {'class': 'cnf-error', 'site': site, 'rules': pair['rules'][:2000], 'data': pair['data']}, found=True)
             continue
-        rules = [c for c in ct.L(res[2][3])]
-        if len(rules) != len(chunk):
-            raise ToolingError('unexpected number of rule records')
-        for shape, rr in zip(chunk, rules):
+        byname = {}
+        for c in ct.L(res[2][3]):
+            cc = c[2]['O']
+            if cc[0] == 'RuleCheck':
+                byname.setdefault(ct.S(cc[1]), c)
+        if any(('r%d' % i) not in byname for i in range(len(chunk))):
+            raise ToolingError('unexpected rule records')
+        for i, shape in enumerate(chunk):
+            rr = byname['r%d' % i]
             n += 1
             exp = conj(shape)
             got, rule_st = observed(site, rr)
-            if got != exp or rule_st != expected_rule(site, exp):
+            if (got is not None and got != exp) or rule_st != expected_rule(site, exp):
                 text = site_rule(site, 'r', cnf_text(shape, random.Random(0)))
                 ctx.failing('CNF %s at site %s: composite status %s (rule %s), the statement requires %s (rule %s)' % (
                     '&'.join('|'.join(l) for l in shape), site, got, rule_st, exp, expected_rule(site, exp)),
